@@ -98,7 +98,10 @@ def case_strategy(draw):
             flt[f["name"]] = draw(tbl.condition_for(f["type"], vals))
     names = [f["name"] for f in fields]
     cols_proj = draw(st.one_of(st.none(), st.lists(st.sampled_from(names), min_size=1, max_size=len(names), unique=True)))
-    return {"kind": "filter", "fields": fields, "files": files, "filter": flt, "columns": cols_proj}
+    # a second, different scan that OVERLAPS the first on the same handle (two lazy generators consumed alternately)
+    f2 = draw(st.sampled_from(fields))
+    flt2 = draw(st.one_of(st.none(), tbl.condition_for(f2["type"], [r.get(f2["name"]) for r in rows]).map(lambda c: {f2["name"]: c})))
+    return {"kind": "filter", "fields": fields, "files": files, "filter": flt, "columns": cols_proj, "filter2": flt2}
 
 
 def check_case(case):
@@ -199,6 +202,37 @@ def check_case(case):
                 combined = functools.reduce(lambda a, b: a & b, parts)
             if whole != combined:
                 out["violations"].append((f"set-law/{_opname(cond)}/{tag}", f"column {col}: {cond[0]} {vals!r} returns {sum(whole.values())} rows but combining the single-value filters gives {sum(combined.values())}"))
+        # (5) the filter belongs to the scan, not to the handle: two lazy scans consumed alternately on ONE handle
+        #     each return what they return when run alone
+        if "filter2" in case and len(case["files"]) >= 2:
+            flt2 = case["filter2"]
+            try:
+                solo1 = rows_multiset(run_read(t, "batches1", flt, columns, None))
+                solo2 = rows_multiset(run_read(t, "iter_records", flt2, None, None))
+            except Exception:
+                solo1 = None
+            if solo1 is not None:
+                out["labels"].append("overlapping-scans")
+                try:
+                    g1 = t.scan_batches(batch_size=1, filter=flt, columns=columns)
+                    g2 = t.iter_records(filter=flt2)
+                    got1, got2, live = [], [], [True, True]
+                    while any(live):
+                        if live[0]:
+                            try:
+                                got1.extend(next(g1))
+                            except StopIteration:
+                                live[0] = False
+                        if live[1]:
+                            try:
+                                got2.append(next(g2))
+                            except StopIteration:
+                                live[1] = False
+                    if rows_multiset(got1) != solo1 or rows_multiset(got2) != solo2:
+                        out["violations"].append((f"overlapping-scans-interfere/{opn}", f"scan_batches(filter={flt!r}) and iter_records(filter={flt2!r}) consumed alternately on one handle returned "
+                                                  f"{len(got1)}/{len(got2)} rows, alone they return {sum(solo1.values())}/{sum(solo2.values())}"))
+                except Exception as e:  # noqa
+                    out["violations"].append((f"overlapping-scans-raise/{type(e).__name__}", f"alternating two scans on one handle raised {type(e).__name__}: {str(e)[:120]} (filters {flt!r} / {flt2!r})"))
         # (1) reference
         if silent is None and ref is not None:
             for k, r in returned.items():
@@ -370,5 +404,7 @@ def replay(case):
                 out.append({"bucket": v["bucket"], "what": v["what"]})
         return out
     case = dict(case, filter=_fix_filter(case["filter"]))
+    if case.get("filter2"):
+        case["filter2"] = _fix_filter(case["filter2"])
     o = check_case(case) if case["kind"] == "filter" else check_malformed(case)
     return [{"bucket": b, "what": w} for b, w in o["violations"]]
